@@ -238,3 +238,204 @@ def replay_softmax(ck, np, rp):
     o = ck.model([f"smexp {bb} {sb}", f"smexpchk {bb} {sb} " + " ".join(map(str, tab))], parallel=False)
     print(f"replay softmax exp table beta={b!r} input_scale={s!r}: implementation {real[:80]}…  model {o[0][:80]}…  reference verdict: {o[1][:200]}")
     return 0 if (real == o[0] and o[1].split(' ')[0] in ("1", "na")) else 1
+
+
+# ----------------------------------------------------------------------------------------------------------------------
+# lut.create_lut_8bit_op / create_lut_int16_op through tflite_graph_optimiser.convert_ops_to_lut (EXP, LOG, SQRT, GELU),
+# and the constant tables of the int16 SOFTMAX.  Validated with Lean Float (Handlers/LutFloat.lean), not proved.
+# ----------------------------------------------------------------------------------------------------------------------
+TIE_UNIT = float(1 << 40)
+
+
+def _decode16(words):
+    """512 hardware words (slope << 16) + base -> the 513 int16 sample values"""
+    vals = []
+    last = None
+    for w in words:
+        w = int(w) & 0xFFFFFFFF
+        base = w & 0xFFFF
+        base = base - 0x10000 if base >= 0x8000 else base
+        slope = w >> 16
+        slope = slope - 0x10000 if slope >= 0x8000 else slope
+        vals.append(base)
+        last = base + slope
+    vals.append(last)
+    return vals
+
+
+def lut_op_streams(ck, np):
+    from ethosu.vela import tflite_graph_optimiser as tgo
+    from ethosu.vela.data_type import DataType
+    from ethosu.vela.operation import Op
+    from ethosu.vela.softmax import SoftMax
+    from ethosu.vela.tensor import QuantizationParameters
+    from ethosu.vela.test import testutil
+
+    rng = ck.rng
+    th = ck.thorough
+    OPS = {"exp": Op.Exp, "log": Op.Log, "sqrt": Op.Sqrt, "gelu": Op.Gelu, "gelu_tanh": Op.Gelu}
+    ZTS = [("int", int), ("np.int64", np.int64)]
+    STS = [("np.float32", np.float32), ("float", lambda v: float(np.float32(v))), ("np.float64", lambda v: np.float64(np.float32(v)))]
+
+    def stub(kind, dt, si, zi, so, zo, zt, st):
+        op = testutil.create_op_with_quant_tensors(OPS[kind], [1, 4, 4, 8], [1, 4, 4, 8], datatype=dt)
+        for t, s, z in ((op.ifm, si, zi), (op.ofm, so, zo)):
+            q = QuantizationParameters()
+            q.scale_f32 = st(s)
+            q.zero_point = zt(z)
+            t.quantization = q
+        if kind.startswith("gelu"):
+            op.attrs["approximate"] = kind == "gelu_tanh"
+        return op
+
+    cases = []
+    n8 = 90 if not th else 1200
+    for i in range(n8):
+        kind = ["exp", "log", "sqrt", "gelu", "gelu_tanh"][i % 5]
+        si = math.exp(rng.uniform(math.log(1e-3), math.log(0.12)))
+        so = math.exp(rng.uniform(math.log(1e-3), math.log(0.12)))
+        if kind == "exp" and rng.random() < 0.5:
+            so = math.exp(si * 127) / rng.uniform(120, 400)              # output range matched to the input range
+        zi = rng.randrange(-128, 128) if kind in ("exp", "gelu", "gelu_tanh") else -128
+        if kind in ("log", "sqrt") and rng.random() < 0.12:
+            zi = rng.randrange(-127, 0)                                   # negative dequantised inputs: the function is undefined there
+        zo = rng.choice([-128, 0, 127]) if rng.random() < 0.3 else rng.randrange(-128, 128)
+        cases.append(dict(bits=8, kind=kind, si=si, so=so, zi=zi, zo=zo, zt=ZTS[(i // 5) % 2], st=STS[(i // 10) % 3]))
+    n16 = 36 if not th else 400
+    for i in range(n16):
+        kind = ["exp", "gelu", "gelu_tanh"][i % 3]
+        si = math.exp(rng.uniform(math.log(1e-5), math.log(3e-4)))
+        so = math.exp(rng.uniform(math.log(1e-5), math.log(3e-4)))
+        if kind == "exp":
+            so = math.exp(si * 32767) / 32768 * rng.uniform(0.5, 1.5)
+        cases.append(dict(bits=16, kind=kind, si=si, so=so, zi=0, zo=0, zt=ZTS[(i // 3) % 2], st=STS[(i // 6) % 3]))
+
+    reqs = []
+    for c in cases:
+        dt = DataType.int8 if c["bits"] == 8 else DataType.int16
+        try:
+            r = tgo.convert_ops_to_lut(stub(c["kind"], dt, c["si"], c["zi"], c["so"], c["zo"], c["zt"][1], c["st"][1]), None, None)
+            c["status"], c["detail"] = "ok", None
+            c["real"] = [int(v) for v in np.asarray(r.activation_lut.values).flatten()]
+        except Exception as e:  # noqa
+            c["status"], where = _exc_kind(e)
+            c["detail"] = f"{type(e).__name__}: {e} at {where}"
+            c["real"] = None
+        b1, b2 = dbl_bits(np.double(np.float32(c["si"]))), dbl_bits(np.double(np.float32(c["so"])))
+        pre = "lut8op" if c["bits"] == 8 else "lut16op"
+        args = f"{c['kind']} {b1} {b2} {c['zi']} {c['zo']}"
+        c["ri"] = len(reqs)
+        reqs.append(f"{pre} {args}")
+        c["di"] = len(reqs)
+        reqs.append(f"{pre}d {args}")
+        if c["bits"] == 16:
+            c["vi"] = len(reqs)
+            reqs.append(f"{pre}v {args}")
+    # constants of the int16 SOFTMAX
+    ci = len(reqs)
+    reqs += ["gen16 exp10", "gen16v exp10", "gen16d exp10", "gen16 recip1", "gen16v recip1", "gen16d recip1"]
+    outs = ck.model(reqs)
+
+    def ints(line):
+        return [int(v) for v in line.split()[1:]]
+
+    n_eval = 0
+    stats = {"entries": 0, "equal": 0, "off_by_one_near_tie_double_path": 0, "off_by_one_within_float32_tolerance": 0, "worse": 0}
+    reported = set()
+
+    def judge(what, cfg, real_vals, lean_vals, dists, tol, path):
+        """entry-wise: equal, or +-1 with the unrounded value within tol (LSB) of a rounding tie"""
+        for j, (a, b) in enumerate(zip(real_vals, lean_vals)):
+            stats["entries"] += 1
+            if a == b:
+                stats["equal"] += 1
+            elif abs(a - b) == 1 and dists[j] < TIE_UNIT * tol:
+                stats["off_by_one_near_tie_double_path" if path == "double" else "off_by_one_within_float32_tolerance"] += 1
+                ck.sample({"float_table_off_by_one_near_tie": cfg, "index": j, "implementation": a, "lean_float": b, "tie_distance_2^-40": dists[j],
+                           "arithmetic": path}, limit=24)
+            else:
+                stats["worse"] += 1
+                if (what, "worse") not in reported:
+                    reported.add((what, "worse"))
+                    ck.violation(f"{what}: sample {j} is {a}, the generator's formula evaluated in double precision (Lean Float) gives {b} "
+                                 f"(tie distance {dists[j] / TIE_UNIT:.3g} LSB, tolerated {tol:.3g}); config {cfg}",
+                                 {"kind": "float_table", **cfg, "index": j, "implementation": a, "lean_float": b})
+
+    for c in cases:
+        cfg = {"generator": "create_lut_8bit_op" if c["bits"] == 8 else "create_lut_int16_op", "op": c["kind"], "ifm_scale": float(np.float32(c["si"])),
+               "ofm_scale": float(np.float32(c["so"])), "zp_in": c["zi"], "zp_out": c["zo"], "zero_point_type": c["zt"][0], "scale_type": c["st"][0]}
+        tag = f"lut{c['bits']}op_{c['kind']}"
+        ck.count(f"{tag}_status_{c['status']}")
+        ck.count(f"lut{c['bits']}op_scale_{c['st'][0]}_zp_{c['zt'][0]}")
+        lean_tab = ints(outs[c["ri"]])
+        dists = ints(outs[c["di"]])
+        if c["status"] != "ok":
+            undefined = c["kind"] in ("log", "sqrt") and c["zi"] > -128 and c["status"] == "err:value"
+            if undefined:
+                ck.count(f"{tag}_rejected_negative_dequantised_input")      # C13 finding ValueError@lut.create_lut_8bit_op / tflite_graph_optimiser.log
+            elif (tag, "raise") not in reported:
+                reported.add((tag, "raise"))
+                ck.violation(f"{cfg['generator']} ({c['kind']}) raises {c['detail']}; config {cfg}", {"kind": "float_table", **cfg, "error": c["detail"]})
+            n_eval += 1
+            continue
+        # arithmetic actually performed by the code (NumPy >= 2 promotion): float32 when a np.float32 scale meets a Python scalar
+        if c["bits"] == 8:
+            path = "float32" if c["st"][0] == "np.float32" else "double"
+            tol = 2.0 ** -10 if path == "float32" else 1e-9
+            if c["kind"] == "gelu":
+                tol = max(tol, 1e-7)          # series erf of the handler vs libm erf
+            judge(tag, cfg, c["real"], lean_tab, dists, tol, path)
+            if any(not (-128 <= v <= 127) for v in c["real"]) and (tag, "range") not in reported:
+                reported.add((tag, "range"))
+                ck.violation(f"{tag}: entry outside [-128,127]", {"kind": "float_table", **cfg, "table": c["real"]})
+            n_eval += 256
+        else:
+            path = "float32" if (c["st"][0] == "np.float32" and c["zt"][0] == "int") else "double"
+            tol = 2.0 ** -6 if path == "float32" else 1e-7
+            real_words = [w & 0xFFFFFFFF for w in c["real"]]
+            lean_words = [w & 0xFFFFFFFF for w in lean_tab]
+            stats["entries"] += 0
+            if real_words == lean_words:
+                stats["entries"] += 513
+                stats["equal"] += 513
+            else:
+                judge(tag, cfg, _decode16(real_words), ints(outs[c["vi"]]), dists, tol, path)
+            n_eval += 513
+    # --- constant tables of the int16 SOFTMAX: TFLite gen_lut(exp, -10, 0) and gen_lut(1/(1+x), 0, 1)
+    for k, (name, tab) in enumerate((("SoftMax.EXP_LUT", SoftMax.EXP_LUT), ("SoftMax.ONE_OVER_ONE_PLUS_X_LUT", SoftMax.ONE_OVER_ONE_PLUS_X_LUT))):
+        lean_words = [w & 0xFFFFFFFF for w in ints(outs[ci + 3 * k])]
+        real_words = [int(w) & 0xFFFFFFFF for w in tab]
+        n_eval += 512
+        ck.count("softmax16_constant_words", 512)
+        if len(real_words) != 512:
+            ck.violation(f"{name} has {len(real_words)} words, the hardware table has 512", {"kind": "softmax16_const", "table": name, "length": len(real_words)})
+            continue
+        if real_words != lean_words:
+            cfg = {"generator": name, "reference": "TFLite gen_lut, 513 samples, output scale 2^-15"}
+            judge(name, cfg, _decode16(real_words), ints(outs[ci + 3 * k + 1]), ints(outs[ci + 3 * k + 2]), 1e-9, "double")
+        else:
+            stats["entries"] += 513
+            stats["equal"] += 513
+    # ... and they are the tables get_graph_int16 attaches to PASS 3 (Add + LUT exp) and PASS 11 (Sub + LUT 1/(1+x))
+    try:
+        op = testutil.create_op_with_quant_tensors(Op.Softmax, [1, 1, 4, 8], [1, 1, 4, 8], datatype=DataType.int16)
+        for t, s in ((op.ifm, 1e-3), (op.ofm, 1 / 32768)):
+            q = QuantizationParameters()
+            q.scale_f32, q.zero_point, q.quant_min, q.quant_max = np.float32(s), np.int64(0), -32768, 32767
+            t.quantization = q
+        op.attrs["beta"] = 1.0
+        last = SoftMax(op).get_graph()
+        mul12 = last.inputs[0].ops[0]
+        add3, sub11 = mul12.inputs[0].ops[0], mul12.inputs[1].ops[0]
+        got = [[int(v) & 0xFFFFFFFF for v in np.asarray(o.activation_lut.values).flatten()] for o in (add3, sub11)]
+        want = [[int(w) & 0xFFFFFFFF for w in SoftMax.EXP_LUT], [int(w) & 0xFFFFFFFF for w in SoftMax.ONE_OVER_ONE_PLUS_X_LUT]]
+        ck.count("softmax16_graph_luts_checked", 2)
+        if got != want:
+            ck.violation("get_graph_int16: the LUT tensors of PASS 3 / PASS 11 are not SoftMax.EXP_LUT / ONE_OVER_ONE_PLUS_X_LUT",
+                         {"kind": "softmax16_const", "pass3_first_words": got[0][:8], "pass11_first_words": got[1][:8]}, found_input=False)
+    except Exception as e:  # noqa
+        ck.violation(f"get_graph_int16 on a stub int16 SOFTMAX raised {type(e).__name__}: {e}", {"kind": "softmax16_const", "error": repr(e)}, found_input=False)
+    for k, v in stats.items():
+        ck.count("lutop_float_" + k, v)
+    return {"evaluations": n_eval, "distinct": len({(c["bits"], c["kind"], c["si"], c["so"], c["zi"], c["zo"]) for c in cases if c["status"] == "ok"}) + 2,
+            "cases": len(cases), "float_entries": stats}
